@@ -194,7 +194,7 @@ Definition bin_vals (q : query) (k : key) (D : list doc) : list Z :=
 
 Definition bin_ne (q : query) (k : key) (D : list doc) : N :=
   if q_group q then
-    if (fst k =? 0)%N then count (fun d => opt_is (d_grp d) (snd k) && is_none (d_fld d)) D else 0%N
+    count (fun d => (bucket_of (q_interval q) (d_mid d) =? fst k)%N && opt_is (d_grp d) (snd k) && is_none (d_fld d)) D
   else
     if (snd k =? 0)%N
     then count (fun d => (bucket_of (q_interval q) (d_mid d) =? fst k)%N && is_none (d_fld d)) D else 0%N.
@@ -215,7 +215,7 @@ Definition doc_keys (q : query) (d : doc) : list key :=
   | _ => if q_group q then
            match d_grp d, d_fld d with
            | Some g, Some _ => [(b, g)]
-           | Some g, None => [(0%N, g)]
+           | Some g, None => [(b, g)]
            | _, _ => []
            end
          else [(b, 0%N)]
